@@ -2,8 +2,13 @@
 """Translator (trusted base of C19): allocation sites of the library -> coq/Gen/AllocSites.v
 
 Lexical / brace-level scan of every .c file under core/src, core/osdep/POSIX, crypto/, matrixssl/
-(test/ and apps/ skipped).  For every call of an allocator (the macro family of
-core/include/psmalloc.h and what it expands to) one Coq record is emitted:
+(test/ and apps/ skipped).  For every call of an allocator one Coq record is emitted.  Allocators are the macro
+family of core/include/psmalloc.h and what it expands to, PLUS - found mechanically, to a fixpoint - every library
+function with a pointer return type whose return value is such a result (`return psMalloc(..)`, `return p;` for an
+alias p of a result, tested inside or not: it returns NULL when the allocation fails): psStrdupN, psBufInit,
+psDynBufInit, psDynBufDetach(PsSize), psBufDetach, tls13NewPsk, matrixSslMakeIdentity, eccNewPoint, ...  (`--wrappers`
+prints the list).  Calls of those are sites of the table with alloc = the wrapper's name and key
+"<file>:<function>@<wrapper>#<ordinal>".  Per site:
 
     file, function, ordinal of the site inside the function (key = "<file>:<function>#<ordinal>" is
     independent of line numbers), line (for people and for the fault injector's addr2line match),
@@ -15,12 +20,15 @@ Classes
                             how = GInline  `if ((p = psMalloc(..)) == NULL)`
                                   GTest    `if (!p)`, `if (p == NULL)`, `p ? :`, `if (!a || !b)` ...
                                   GAlias   the test is made on an alias (`a = b = psMalloc`, `x = p;`)
-    Returned               handed unchecked to the caller (`return psMalloc(..)` / `return p`): the
-                            function becomes an allocator itself; its call sites are scanned in a
-                            second pass and appear in the table (alloc = the wrapper's name)
-    StoredOnly             stored in an out-parameter / structure field and the function ends: the
-                            consumers of that field must test it; the scanner looks for a test
-                            of the same field text in the same file and records whether it found one
+                                  GCallee  a local that is only handed to library functions which themselves test that
+                                           parameter for NULL before using it (and to psFree)
+    Returned               handed unchecked to the caller (`return psMalloc(..)` / `return p`)
+    Discarded              `f(..);` - the value of an allocating function is dropped (psDynBufInit style: the failure is
+                            latched by the callee's own test); nothing at the site can use it
+    StoredUnchecked        stored in a structure field / out-parameter and neither tested nor used before the function
+                            ends: NULL in that field is read by other code as "not requested" (expectedName, ticket, ...),
+                            so a failed allocation silently changes meaning.  NEVER counts as guarded; the places that test
+                            the field are listed in s_consumers for the reader
     UsedUnguarded kind     dereferenced / written through before any test
                             kind = UField (p->f) | UIndex (p[i]) | UDeref (*p) | UMemDest (Memcpy/Memset..
                                    destination) | UStrDest (Strcpy/Snprintf.. destination) | UArg (passed to a
@@ -117,6 +125,9 @@ def match_paren(t, i, open_c="(", close_c=")"):
     return n
 
 
+RET_PTR = {}        # (function name, body offset) -> the definition's return type is a pointer
+
+
 def find_functions(t, events):
     """[(name, body_start, body_end)] - body offsets of the outermost braces of every function definition.
     Brace depth is restored at #else/#elif to the depth seen at the matching #if (both branches balanced)."""
@@ -152,6 +163,11 @@ def find_functions(t, events):
                     m = re.search(r"([A-Za-z_]\w*)\s*$", t[max(0, k2 - 200):k2])
                     if m and m.group(1) not in KEYWORDS:
                         name = m.group(1)
+                        # declaration specifiers in front of the name: does the function return a pointer?
+                        ns = max(0, k2 - 200) + m.start(1)
+                        decl = t[max(0, ns - 160):ns]
+                        decl = re.split(r"[;}]", decl)[-1]
+                        RET_PTR[(name, i)] = "*" in decl
                         d2 = 0; curp = ""
                         for ch in t[k2 + 1:j] + ",":
                             if ch in "([": d2 += 1
@@ -249,6 +265,9 @@ def first_test(text, aliases):
     return best
 
 
+GUARDING_CALLEES = []     # filled by first_use: callees that received the value and test it for NULL before using it
+
+
 def first_use(text, aliases):
     """earliest dereferencing use of an alias in text: (pos, kind, detail) or None"""
     best = None
@@ -291,6 +310,7 @@ def first_use(text, aliases):
                 elif fn in MEM_DEST or fn in STR_DEST: upd(ps, "UMemDest", fn)      # NULL source is equally fatal
                 else:
                     c = callee_param(fn, idx)
+                    if c == "guards": GUARDING_CALLEES.append(fn)
                     if c == "uses": upd(ps, "UArg", fn)
                     elif c is None: upd(ps, "UArg", fn + "?")       # definition not found: assume the worst
                     # "guards" / "nouse": the callee tests the parameter before using it, or never touches it
@@ -381,6 +401,18 @@ def analyse(t, fstart, fend, call_s, call_e, allocs_re):
         res["cls"] = "Returned"; res["why"] = "return <alloc>"
         return res
     if kind != "assign":
+        # the value is compared with NULL where it is produced:  if (f(..) == NULL)   x = (f(..) == NULL);   if (!f(..))
+        if re.match(r"\s*\)*\s*[=!]=\s*(?:NULL|0)\b", suffix) or re.search(r"!\s*\(*\s*$", prefix):
+            res["cls"] = "GuardedBeforeUse"; res["how"] = "GInline"; res["why"] = "result compared with NULL in place"
+            return res
+        if re.match(r"\s*\)*\s*\?", suffix) and kind in ("other", "arg"):
+            res["cls"] = "GuardedBeforeUse"; res["how"] = "GInline"; res["why"] = "result compared with NULL in place"
+            return res
+        # expression statement `f(..);` : the value is dropped - nothing at this site can use it.  (For the psDynBuf
+        # family this is the documented style: the failure is latched in the buffer's err flag by the callee's own test.)
+        if kind == "other" and prefix.strip() in ("", "(void)") and re.match(r"\s*$", suffix):
+            res["cls"] = "Discarded"; res["why"] = "return value dropped (callee's own test is the only consumer)"
+            return res
         res["cls"] = "Unknown"; res["why"] = "result not assigned (%s)" % kind
         return res
     primary = aliases[0]
@@ -393,6 +425,11 @@ def analyse(t, fstart, fend, call_s, call_e, allocs_re):
             res["cls"] = "GuardedBeforeUse"; res["how"] = "GInline"; res["why"] = "test in the allocating condition"
             return res
         res["cls"] = "Unknown"; res["why"] = "allocation inside a condition without a recognised test"
+        return res
+    if re.match(r"\s*\?", suffix) and not head:
+        # x = f(..) ? A : B;  the pointer itself is not kept: it only selects a value
+        res["cls"] = "GuardedBeforeUse"; res["how"] = "GInline"; res["why"] = "result only tested in place (selects a status)"
+        res["lhs"] = ""; res["aliases"] = []
         return res
     if suffix.strip():
         # e.g.  p = psMalloc(n) + 1;   p = psMalloc(..) ? .. : ..
@@ -462,7 +499,12 @@ def walk(t, pos, fend, aliases, res, allocs_re):
                         return finish_path(res, aliases, "function returns")
                     continue
             tst = first_test(seg, aliases)
+            del GUARDING_CALLEES[:]
             use = first_use(seg, aliases)
+            if GUARDING_CALLEES and not (tst or use):
+                res.setdefault("callee_guard", [])
+                for g_ in GUARDING_CALLEES:
+                    if g_ not in res["callee_guard"]: res["callee_guard"].append(g_)
             # `x = alias;` extends the alias set (the test may be made on x)
             if tst or use:
                 res["at"] = t.count("\n", 0, cs + (len(text) - len(text.lstrip()))) + 1
@@ -510,8 +552,13 @@ def walk(t, pos, fend, aliases, res, allocs_re):
 
 def finish_path(res, aliases, why):
     stored = [a for a in aliases if re.search(r"->|\.|\*|\[", a)]
+    if not stored and res.get("callee_guard"):
+        # a local that is only ever handed to library functions which test that parameter for NULL before using it
+        res["cls"] = "GuardedBeforeUse"; res["how"] = "GCallee"
+        res["why"] = "%s; only consumer(s) %s test the parameter for NULL" % (why, ",".join(res["callee_guard"]))
+        return res
     if stored:
-        res["cls"] = "StoredOnly"; res["why"] = "%s with the result in %s, untested" % (why, stored[0]); res["stored"] = stored[0]
+        res["cls"] = "StoredUnchecked"; res["why"] = "%s with the result in %s, untested" % (why, stored[0]); res["stored"] = stored[0]
     else:
         res["cls"] = "Unknown"; res["why"] = "%s, result in local %s neither tested, used nor returned" % (why, aliases[0])
     return res
@@ -613,11 +660,39 @@ def scan(files, alloc_names, wrapper_defs=frozenset()):
                 ce = match_paren(t, m.end() - 1) + 1
                 ordn += 1
                 r = analyse(t, fs, fe, m.start(), ce, allocs_re)
+                r["returns_fresh"] = returns_fresh(t, name, fs, fe, m.start(), ce, r)
                 s = dict(r)
                 s.update(file=rel, func=fname, ord=ordn, alloc=an, line=t.count("\n", 0, m.start()) + 1,
                          key="%s:%s#%d" % (os.path.basename(rel), fname, ordn), fstart=fs, fend=fe)
                 sites.append(s)
     return sites
+
+
+def returns_fresh(t, fname, fs, fe, call_s, call_e, r):
+    """does the enclosing function hand the freshly allocated block (tested or not) to its caller as its return value?
+    Such a function is an allocator itself: it returns NULL when the allocation fails, and its callers are scanned
+    like callers of psMalloc.  Lexical: `return <alloc>(..)`, or `return a;` for an alias a of the result, where the
+    alias set is closed under plain copies `x = a;` / `x = (T *) a;` found after the allocation."""
+    if not RET_PTR.get((fname, fs), False):
+        return False          # e.g. an int status that happens to be computed from the pointer
+    if r.get("cls") == "Returned":
+        return True
+    aliases = [a for a in r.get("aliases", []) if a]
+    if not aliases:
+        return False
+    body = t[call_e:fe]
+    for _ in range(3):
+        grew = False
+        for a in list(aliases):
+            for m in re.finditer(r"(?:^|[;{}])\s*([A-Za-z_]\w*)\s*=\s*(?:\(\s*[\w\s]+\**\s*\)\s*)?" + alias_re(a) + r"\s*;", body):
+                if m.group(1) not in aliases:
+                    aliases.append(m.group(1)); grew = True
+        if not grew:
+            break
+    for a in aliases:
+        if re.search(r"\breturn\b\s*\(?\s*(?:\(\s*[\w\s]+\**\s*\)\s*)?" + alias_re(a) + r"\s*\)?\s*;", body):
+            return True
+    return False
 
 
 def stored_consumers_tested(s, cache):
@@ -648,20 +723,20 @@ def main():
     # second pass: functions that hand the raw allocation to their caller become allocators themselves
     wrappers = {}
     for s in base:
-        if s["cls"] == "Returned":
+        if s.get("returns_fresh"):
             wrappers.setdefault(re.sub(r"~\d+$", "", s["func"]), []).append(s["key"])
     derived = []
     names = set(wrappers) - set(BASE_ALLOC)
     rounds = 0
     known = set(names)
-    while names and rounds < 3:
+    while names and rounds < 6:
         d = scan(files, names)
         # a wrapper's own definition line is not a call site (name followed by parameter list at depth 0 is outside bodies anyway)
         new = set()
         for s in d:
             s["derived"] = True
             derived.append(s)
-            if s["cls"] == "Returned":
+            if s.get("returns_fresh"):
                 w = re.sub(r"~\d+$", "", s["func"])
                 wrappers.setdefault(w, []).append(s["key"])
                 if w not in known and w not in BASE_ALLOC:
@@ -681,11 +756,13 @@ def main():
             s["callers"] = [d["key"] for d in cs]
             # every caller site is itself in the table and must be guarded there; a wrapper nobody calls is vacuous
             s["callers_ok"] = True
-        elif s["cls"] == "StoredOnly":
+        elif s["cls"] == "StoredUnchecked":
+            # the consumers of the field cannot tell "allocation failed" from "nothing was requested": never a guard.
+            # The places that test the field are recorded for the reader (they are what silently changes meaning).
             if cache is None:
                 cache = {rel: preprocessed(rel)[0] for rel in files}
             ok, where = stored_consumers_tested(s, cache)
-            s["callers_ok"] = ok
+            s["callers_ok"] = False
             s["callers"] = [where] if where else []
     # ---- emit Coq
     kinds = ["UField", "UIndex", "UDeref", "UMemDest", "UStrDest", "UArg"]
@@ -695,11 +772,11 @@ def main():
     out.append("Import ListNotations.")
     out.append("Open Scope string_scope.")
     out.append("")
-    out.append("Inductive guard_how := GInline | GTest | GAlias.")
+    out.append("Inductive guard_how := GInline | GTest | GAlias | GCallee.")
     out.append("Inductive use_kind := UField | UIndex | UDeref | UMemDest | UStrDest | UArg.")
     out.append("Inductive site_class :=")
     out.append("  | GuardedBeforeUse (h : guard_how)")
-    out.append("  | Returned | StoredOnly")
+    out.append("  | Returned | Discarded | StoredUnchecked")
     out.append("  | UsedUnguarded (k : use_kind)")
     out.append("  | Unknown.")
     out.append("Record site := mkSite {")
@@ -708,7 +785,7 @@ def main():
     out.append("  s_alloc : string;      (* allocator called (a wrapper's name for second-pass sites) *)")
     out.append("  s_lhs : string;        (* assigned lvalue *)")
     out.append("  s_class : site_class;")
-    out.append("  s_consumers_tested : bool;   (* Returned: callers are sites of this table; StoredOnly: a NULL test of the field exists *)")
+    out.append("  s_consumers_tested : bool;   (* Returned: the callers are sites of this table (allocator = this function) *)")
     out.append("  s_consumers : list string }.")
     out.append("")
     out.append("Definition sites : list site := [")
@@ -742,8 +819,10 @@ def main():
         for s in allsites:
             print("%-60s %s:%d->%s %-10s lhs=%-28s %s%s  [%s]%s" % (s["key"], s["file"], s["line"], s.get("at", "-"), s["alloc"], s["lhs"], s["cls"],
                   (":" + s.get("kind", s.get("how", ""))) if s.get("kind") or s.get("how") else "", s.get("why", ""),
-                  (" consumers=%s ok=%s" % (s["callers"], s["callers_ok"])) if s["cls"] in ("Returned", "StoredOnly") else ""))
+                  (" consumers=%s ok=%s" % (s["callers"], s["callers_ok"])) if s["cls"] in ("Returned", "StoredUnchecked") else ""))
     notg = [s["key"] for s in allsites if s["cls"] in ("Unknown",)]
+    if "--wrappers" in sys.argv:
+        print("allocation wrappers (functions returning freshly allocated memory): " + " ".join(sorted(wrappers)))
     print("AllocSites.v %s: %d sites (%d direct, %d via wrappers) %s%s" % (
         "updated" if changed else "unchanged", len(allsites), len(base), len(derived),
         " ".join("%s=%d" % kv for kv in sorted(hist.items())), (" Unknown: " + ",".join(notg[:8])) if notg else ""))
